@@ -123,6 +123,9 @@ proof fn lemma_pieces_final_mono(hps: Seq<Piece>, ents: Seq<(u32, u32)>, m: int,
         assert(piece_depth(hps[q], ents) && hps[q].e <= m);
     }
 }
+/// the bound up to which the pending coverage is final: the next entry's start; after the LAST entry of the chromosome
+/// everything (ends are u32)
+spec fn zbound_of(next_val: Option<u32>) -> u32 { if next_val.is_some() { next_val.unwrap() } else { u32::MAX } }
 proof fn lemma_tot_push(h: Seq<Value>, v: Value)
     ensures tot(h.push(v)) == tot(h) + (v.end - v.start),
 {
@@ -141,7 +144,8 @@ proof fn lemma_tot_push(h: Seq<Value>, v: Value)
 //@sub /(?<![\w.`])overlap\b(?!`)/ => zoom_item.overlap min=10
 //@sub /zoom_item\.overlap\s*\.get_last\(\)\s*\.map\(\|o\| o\.end >= item_start\)\s*\.unwrap_or\(true\)/ => (zoom_item.overlap@.len() > 0 ==> zoom_item.overlap@.last().end >= item_start)
 //@sub /zoom_item\.overlap\s*\.get_first\(\)\s*\.map\(\|f\| f\.start < next_start\)\s*\.unwrap_or\(false\)/ => first_starts_before(&zoom_item.overlap, next_start)
-//@sub /next_val\.map\(\|v\| v\.start\)\.unwrap_or\(/ => next_val.unwrap_or( min=1
+//@sub /next_val\.map\(\|v\| v\.start\)\.unwrap_or\(/ => next_val.unwrap_or( min=0
+//@sub /next_val\.map_or\(\s*([\w.:]+(?:\(\))?)\s*,\s*\|v\| v\.start\s*\)/ => next_val.unwrap_or(\1) min=0
 //@sub /\bu32::max_value\(\)/ => u32::MAX min=0
 //@sub /zoom_item\s*\.live_info\s*\.take\(\)\s*\.map\(\|\(mut zoom_item, total_items\)\| \{\s*zoom_item\.summary\.total_items = total_items;\s*zoom_item\s*\}\)\s*\.unwrap\(\),\s*\);/ => close_live(zoom_item.live_info.take()));
 //@sub /!zoom_item\.records\.is_empty\(\)/ => (zoom_item.records.len() != 0) min=0
@@ -161,41 +165,33 @@ proof fn lemma_tot_push(h: Seq<Value>, v: Value)
         tot(hist) == cnt(ents, 0, item_start as int),
         zoom_ok(*old(zoom_item), hist, prev_end, prev_end, chrom_id, options.items_per_slot as int, hist.len() as int),
     ensures
-        ({
-            let ents2 = ents.push((item_start, item_end));
-            let next_start = if next_val.is_some() { next_val.unwrap() } else { u32::MAX };
-            let ps = out@.1;
-            let h2 = hist + vals_of(ps);
-            let b = flushed_to(ps, item_start as int);
-            let hi0 = hi_of(old(zoom_item).overlap@, item_start as int);
-            [[L: sweep_invariant]]
-            &&& segs_ok(final(zoom_item).overlap@, out@.0, next_start as int, ents2)
-            [[L: pending_continues_flushed]]
-            &&& segs_ok(final(zoom_item).overlap@, out@.0, b, ents2)
-            &&& item_start <= b <= next_start
-            &&& (final(zoom_item).overlap@.len() > 0 ==> b == next_start)
-            [[L: flushed_segments_tile_and_have_exact_depth]]
-            &&& pieces_ok(ps, item_start as int, b, ents2)
-            [[L: flushed_history_ordered]]
-            &&& hist_ok(h2) && before(h2, b)
-            [[L: history_segments_have_final_depth]]
-            &&& h2 == vals_of(hps + ps) && pieces_final(hps + ps, ents2, b)
-            [[L: history_total_is_number_of_covered_bases]]
-            &&& tot(h2) == cnt(ents2, 0, next_start as int)
-            [[L: tiling_invariant]]
-            &&& zoom_ok(*final(zoom_item), h2, b, b, chrom_id, options.items_per_slot as int, h2.len() as int)
-            [[L: size_unchanged]]
-            &&& final(zoom_item).size == old(zoom_item).size
-            [[L: batch_not_full_at_exit]]
-            &&& final(zoom_item).records@.len() < options.items_per_slot
-            [[L: chrom_end_flushes_everything]]
-            &&& (next_val.is_none() ==> final(zoom_item).live_info.is_none() && final(zoom_item).records@.len() == 0 && final(zoom_item).overlap@.len() == 0)
-            [[L: stream_only_grows]]
-            &&& old(zoom_item).channel.log().is_prefix_of(final(zoom_item).channel.log())
-            [[L: tail_reaches_max_end]]
-            &&& (final(zoom_item).overlap@.len() > 0 ==> final(zoom_item).overlap@.last().end == imax(hi0, item_end as int))
-            &&& (final(zoom_item).overlap@.len() == 0 ==> imax(hi0, item_end as int) <= next_start)
-        }),
+        [[L: sweep_invariant]]
+        segs_ok(final(zoom_item).overlap@, out@.0, zbound_of(next_val) as int, ents.push((item_start, item_end))),
+        [[L: pending_continues_flushed]]
+        segs_ok(final(zoom_item).overlap@, out@.0, flushed_to(out@.1, item_start as int), ents.push((item_start, item_end))),
+        item_start <= flushed_to(out@.1, item_start as int) <= zbound_of(next_val),
+        final(zoom_item).overlap@.len() > 0 ==> flushed_to(out@.1, item_start as int) == zbound_of(next_val),
+        [[L: flushed_segments_tile_and_have_exact_depth]]
+        pieces_ok(out@.1, item_start as int, flushed_to(out@.1, item_start as int), ents.push((item_start, item_end))),
+        [[L: flushed_history_ordered]]
+        hist_ok((hist + vals_of(out@.1))) && before((hist + vals_of(out@.1)), flushed_to(out@.1, item_start as int)),
+        [[L: history_segments_have_final_depth]]
+        (hist + vals_of(out@.1)) == vals_of(hps + out@.1) && pieces_final(hps + out@.1, ents.push((item_start, item_end)), flushed_to(out@.1, item_start as int)),
+        [[L: history_total_is_number_of_covered_bases]]
+        tot((hist + vals_of(out@.1))) == cnt(ents.push((item_start, item_end)), 0, zbound_of(next_val) as int),
+        [[L: tiling_invariant]]
+        zoom_ok(*final(zoom_item), (hist + vals_of(out@.1)), flushed_to(out@.1, item_start as int), flushed_to(out@.1, item_start as int), chrom_id, options.items_per_slot as int, (hist + vals_of(out@.1)).len() as int),
+        [[L: size_unchanged]]
+        final(zoom_item).size == old(zoom_item).size,
+        [[L: batch_not_full_at_exit]]
+        final(zoom_item).records@.len() < options.items_per_slot,
+        [[L: chrom_end_flushes_everything]]
+        next_val.is_none() ==> final(zoom_item).live_info.is_none() && final(zoom_item).records@.len() == 0 && final(zoom_item).overlap@.len() == 0,
+        [[L: stream_only_grows]]
+        old(zoom_item).channel.log().is_prefix_of(final(zoom_item).channel.log()),
+        [[L: tail_reaches_max_end]]
+        final(zoom_item).overlap@.len() > 0 ==> final(zoom_item).overlap@.last().end == imax(hi_of(old(zoom_item).overlap@, item_start as int), item_end as int),
+        final(zoom_item).overlap@.len() == 0 ==> imax(hi_of(old(zoom_item).overlap@, item_start as int), item_end as int) <= zbound_of(next_val),
 //@open
         let ghost ents2 = ents.push((item_start, item_end));
         let ghost hi0 = hi_of(zoom_item.overlap@, item_start as int);
